@@ -346,3 +346,63 @@ Proof.
   intros. unfold write_later. erewrite map_nth_error by eassumption.
   cbn [build]. rewrite ack_stamped. reflexivity.
 Qed.
+
+(* ---- all subsequent traffic ---- *)
+Lemma post_version_invariant : forall cfg evs s,
+  p_ver (fold_left (post_step cfg) evs s) = p_ver s.
+Proof.
+  intros cfg evs. induction evs as [|e evs IH]; intro s; [reflexivity|].
+  cbn [fold_left]. rewrite IH. destruct e; reflexivity.
+Qed.
+
+Lemma post_out_ok : forall cfg evs s v, conforming cfg = true -> p_ver s = v ->
+  Forall (fun f => m_ver f = v \/ is_neg_type (m_typ f) = true) (p_out s) ->
+  Forall (fun f => m_ver f = v \/ is_neg_type (m_typ f) = true) (p_out (fold_left (post_step cfg) evs s)).
+Proof.
+  intros cfg evs. induction evs as [|e evs IH]; intros s v C V F; [exact F|].
+  cbn [fold_left]. apply IH; try assumption.
+  - destruct e; cbn [post_step p_ver]; assumption.
+  - destruct e as [t p| |]; cbn [post_step p_out]; try assumption.
+    + apply Forall_app. split; [assumption|]. constructor; [|constructor].
+      rewrite V. destruct (is_neg_type t) eqn:T.
+      * right. unfold stamp, new_message. cbn [m_typ]. rewrite T. exact T.
+      * left. apply (stamp_ordinary cfg v (Request t p) C). cbn [ordinary]. rewrite T. reflexivity.
+    + apply Forall_app. split; [assumption|]. constructor; [|constructor].
+      left. rewrite V. apply (ack_negotiated cfg v).
+Qed.
+
+Lemma post_traffic_negotiated_l : forall cfg cmax k1 k2 r1 r2 evs, conforming cfg = true ->
+  let s := session_post cfg cmax k1 k2 r1 r2 evs in
+  p_ver (snd s) = n_version (fst s) /\
+  Forall (fun f => m_ver f = n_version (fst s) \/ is_neg_type (m_typ f) = true) (p_out (snd s)).
+Proof.
+  intros cfg cmax k1 k2 r1 r2 evs C. unfold session_post. cbn [fst snd].
+  destruct (n_outcome _).
+  - unfold post_run. split.
+    + apply post_version_invariant.
+    + apply post_out_ok with (v := n_version (negotiate_ka cfg cmax k1 k2 r1 r2)); try assumption; try reflexivity.
+      constructor.
+  - split; [reflexivity|constructor].
+Qed.
+
+(* answers are invisible on the wire and leave the version alone, whatever they are *)
+Lemma post_answer_neutral : forall cfg s a, post_step cfg s (PAnswer a) = s.
+Proof. reflexivity. Qed.
+
+(* acknowledgements carry the current version at every position, under every configuration *)
+Lemma post_acks_ok : forall cfg evs s v, p_ver s = v ->
+  Forall (fun f => m_typ f = MsgKeepAliveAck -> m_ver f = v) (p_out s) ->
+  (forall t p, In (PRequest t p) evs -> t <> MsgKeepAliveAck) ->
+  Forall (fun f => m_typ f = MsgKeepAliveAck -> m_ver f = v) (p_out (fold_left (post_step cfg) evs s)).
+Proof.
+  intros cfg evs. induction evs as [|e evs IH]; intros s v V F N; [exact F|].
+  cbn [fold_left]. apply IH.
+  - destruct e; cbn [post_step p_ver]; assumption.
+  - destruct e as [t p| |]; cbn [post_step p_out]; try assumption.
+    + apply Forall_app. split; [assumption|]. constructor; [|constructor].
+      intro T. rewrite stamp_typ in T. cbn [new_message m_typ] in T.
+      exfalso. apply (N t p); [left; reflexivity|exact T].
+    + apply Forall_app. split; [assumption|]. constructor; [|constructor].
+      intros _. rewrite V. apply ack_negotiated.
+  - intros t p H. apply (N t p). right. exact H.
+Qed.
